@@ -177,12 +177,35 @@ fn gen_records(w: &World, kind: Kind, scale: Scale, magic: Option<usize>, edge_d
         } else {
             vec![]
         };
-        v.push(Rec {
-            id,
-            desc,
-            seq,
-            qual,
-        });
+        let mut rec = Rec { id, desc, seq, qual };
+        // relations between fields and between neighbouring records (1 record in 12)
+        if w.chance(1, 12) {
+            w.probe("related_fields_or_records");
+            match (w.draw(6), v.last()) {
+                (0, Some(prev)) => rec = prev.clone(), // the same record twice in a row
+                (1, Some(prev)) => rec.id = format!("{}{}", prev.id, rec.id), // previous id is a prefix
+                (2, Some(prev)) => {
+                    // previous id is an extension of this one
+                    let n = prev.id.chars().count();
+                    if n > 1 {
+                        rec.id = prev.id.chars().take(n - 1).collect();
+                    }
+                }
+                (3, _) => rec.desc = Some(rec.id.clone()),
+                (4, _) if kind == Kind::Fastq => rec.qual = rec.seq.clone(), // residues are printable
+                (5, Some(prev)) if kind == Kind::Fastq && !rec.qual.is_empty() => {
+                    // qualities that look like the header of the previous record
+                    let h = format!("@{}", prev.id);
+                    let hb = h.as_bytes();
+                    if hb.iter().all(|b| (33..=126).contains(b)) {
+                        let n = rec.qual.len().min(hb.len());
+                        rec.qual[..n].copy_from_slice(&hb[..n]);
+                    }
+                }
+                _ => rec.desc = Some(rec.id.clone()),
+            }
+        }
+        v.push(rec);
     }
     v
 }
@@ -1609,7 +1632,7 @@ pub fn property() -> Property {
             "header_split_across_reads", "cr_lf_in_different_reads", "utf8_char_split_across_reads", "first_byte_delivered_alone",
             "cut_at_record_boundary", "cut_inside_header", "cut_inside_plus_line", "cut_inside_quality", "cut_inside_sequence", "cut_inside_terminator",
             "quality_starts_with_at", "quality_starts_with_plus", "writer_buffer_smaller_than_field", "relayout_multiline_crlf",
-            "sniffer_used", "description_empty_or_ending_in_whitespace", "sniff_seek_stream_not_at_zero", "magic_size_run", "wrap_equals_magic_and_sequence_reaches_it", "large_regime", "many_records_regime", "huge_regime", "cut_sweep", "all_partitions_sweep", "garbage_invalid_utf8", "garbage_rejected_with_error",
+            "sniffer_used", "related_fields_or_records", "description_empty_or_ending_in_whitespace", "sniff_seek_stream_not_at_zero", "magic_size_run", "wrap_equals_magic_and_sequence_reaches_it", "large_regime", "many_records_regime", "huge_regime", "cut_sweep", "all_partitions_sweep", "garbage_invalid_utf8", "garbage_rejected_with_error",
         ],
         quick_runs: 400_000,
         thorough_runs: 30_000_000,
